@@ -163,6 +163,7 @@ class VPairSource(DataSource):
 
     @classmethod
     def _get_data(cls, a: float, b: float = 1.0):
+        a = float(a)          # a decimal numeral (a string-valued sweep expression) is accepted too
         CALL_LOG.append(("VPairSource", a, b))
         return FloatDataType(float(10 * a + b))
 
@@ -175,6 +176,7 @@ class VPairOperation(FloatOperation):
     """1000 * data + 10 * a + b."""
 
     def _process_logic(self, data, a: float, b: float = 1.0):
+        a = float(a)
         CALL_LOG.append(("VPairOperation", data.data, a, b))
         return FloatDataType(float(1000 * data.data + 10 * a + b))
 
@@ -183,6 +185,7 @@ class VPairProbe(FloatProbe):
     """Probe returning 1000 * data + 10 * a + b."""
 
     def _process_logic(self, data, a: float, b: float = 1.0):
+        a = float(a)
         CALL_LOG.append(("VPairProbe", data.data, a, b))
         return float(1000 * data.data + 10 * a + b)
 
